@@ -4,7 +4,11 @@ propose_buffer.push (and the push happens only when the back-pressure test is fa
 is present); the non-leader push_client_cmd reaches no log-mutating function at all (positive control:
 LeaderState::process_batch does); (b) drain_read_buffer answers only errors and reaches no log-mutating
 function, so the batch flushed out of propose_buffer on step-down is never appended; (c) the gRPC
-write handler forwards ClientCmd::Propose only when the operation is present.
+write handler forwards ClientCmd::Propose only when the operation is present; (d) writes whose entries are
+ALREADY in the leader's log (reply senders parked in pending_client_writes) are never answered with a code of the
+rejection vocabulary (NotLeader and whatever codes push_client_cmd's rejections use): the error code of every
+error reply sent by a function that takes senders out of pending_client_writes is followed (through a parameter
+to the callers' operands) and compared with that vocabulary.
 Necessary conditions, not the whole behaviour."""
 from .helpers_r1 import *
 
@@ -80,14 +84,21 @@ def run(ctx):
     drb = ctx.anchor(F.method, "LeaderState", "drain_read_buffer")
     if drb:
         mb = F.main_body(drb)
-        fl = field_calls(F, mb, "LeaderState", "propose_buffer", r"ProposeBatchBuffer::(flush|take_all|drain)$")
-        ctx.floor("C14-b", len(fl), 1, "propose_buffer.flush in drain_read_buffer")
+        # drain_read_buffer together with the LeaderState helpers it calls (treated as inlined: extracting a part of the drain
+        # into a private method must not lose the anchors)
+        group = list(F.group_bodies(drb))
+        for k in sorted(closure_functions(F, drb.id, 3)):
+            hb = F.bodies.get(k)
+            if hb is not None and hb.id != drb.id and "leader_state::LeaderState" in strip_generics(self_type_of(F, hb.id) or "") and hb.crate == "d_engine_core":
+                group += [x for x in F.group_bodies(hb) if x not in group]
+        fl_all = [(gb, bi, t) for gb in group for (bi, t) in field_calls(F, gb, "LeaderState", "propose_buffer", r"ProposeBatchBuffer::(flush|take_all|drain)$")]
+        ctx.floor("C14-b", len(fl_all), 1, "propose_buffer.flush in drain_read_buffer (and its LeaderState helpers)")
         r = F.fn_reaches(drb.id, is_sink, D)
         ctx.check("C14-b", "%s#reaches-no-log-sink" % fkey(drb), r is None, "the flushed batch cannot be appended: drain_read_buffer reaches no log-mutating function",
                   "drain_read_buffer reaches %s: writes flushed on step-down (answered `Not leader`) can still be appended and later applied"
                   % (r and [strip_generics(x).split("::")[-1] for x in r[1]]), "%s:%s" % (drb.file, drb.line))
         sends = []
-        for b in F.group_bodies(drb):
+        for b in group:
             for (bi, t) in calls_matching(b, SEND):
                 sends.append((b, bi, reply_kind(F, b, t)))
         ctx.floor("C14-b", len(sends), 6, "replies sent by drain_read_buffer")
@@ -95,17 +106,17 @@ def run(ctx):
         ctx.check("C14-b", "%s#only-error-replies" % fkey(drb), not bad, "every reply sent while draining is an error",
                   "drain_read_buffer can answer a drained request with a non-error response", bad and loc(*bad[0]))
         # the payloads of the flushed batch are used by nothing: only its senders are consumed
-        for (bi, t) in fl:
+        for (fb, bi, t) in fl_all:
             used = []
-            for (xb, xt) in mb.calls():
+            for (xb, xt) in fb.calls():
                 if xb == bi or re.search(SEND, strip_generics(callee_key(xt) or "")):
                     continue
                 for a in xt["args"]:
-                    s = Slice(F, mb).operand(a)
+                    s = Slice(F, fb).operand(a)
                     if t["dest"]["l"] in s.seen and s.has_field("RaftRequestWithSignal", "payloads"):
                         used.append((xb, strip_generics(callee_key(xt) or "?").split("::")[-1]))
             ctx.check("C14-b", "%s#flushed-payloads-unused" % fkey(drb), not used, "payloads of the flushed batch flow nowhere",
-                      "payloads of the batch flushed on step-down flow into %s" % sorted(set(u[1] for u in used)), loc(mb, bi))
+                      "payloads of the batch flushed on step-down flow into %s" % sorted(set(u[1] for u in used)), loc(fb, bi))
 
     # ---------------------------------------------------------------- C14-c gRPC: missing operation rejected before forwarding
     hw = [b for b in F.find(r"RaftClientService for .*Node<T>>::handle_client_write$") if b.parent is None]
@@ -121,3 +132,73 @@ def run(ctx):
                           "handle_client_write forwards a write whose operation is missing (it is rejected later as empty while a no-op payload may already be buffered)",
                           loc(b, bi), wit and bpath(b, wit))
         ctx.floor("C14-c", n, 1, "ClientCmd::Propose construction in handle_client_write")
+
+    # ---------------------------------------------------------------- C14-d writes that are already in the log are never answered with a rejection code
+    # `pending_client_writes` holds the reply senders of writes that process_batch has ALREADY appended to the log
+    # (positive control below); the next leader may still commit them. Answering them with a code out of the
+    # rejection vocabulary (the codes the rejection paths of push_client_cmd use: "nothing happened, redirect
+    # and retry") makes the client retry a write that is then applied twice. Every function that takes senders
+    # out of pending_client_writes and answers them with an error must use a code outside that vocabulary; a code
+    # that arrives as a parameter is followed to the callers' operands.
+    vocab = {"NotLeader"}
+    cnl = [F.bodies[k] for k in F.bodies if strip_generics(k).endswith("RaftRoleState::create_not_leader_response")]
+    for fn in [x for x in [lp, dflt] + cnl if x]:
+        for b in F.group_bodies(fn):
+            for (bi, t) in b.calls():
+                if re.search(r"ClientResponse::client_error$", strip_generics(callee_key(t) or "")):
+                    vocab |= _codes(F, b, t["args"][0])[0]
+    ctx.note("C14-d rejection vocabulary (codes used by push_client_cmd rejections): %s" % sorted(vocab))
+    takers = []
+    for bid, b in F.bodies.items():
+        if b.crate != "d_engine_core" or "_test" in (b.file or ""):
+            continue
+        root = F.root_of[bid]
+        if "LeaderState" not in strip_generics(root):
+            continue
+        if field_calls(F, b, "LeaderState", "pending_client_writes", r"(mem::take|mem::replace|BTreeMap::<.*>::(split_off|remove|pop_first|pop_last|retain|into_iter|drain|extract_if)|BTreeMap::(split_off|remove|pop_first|pop_last|retain|into_iter|drain|extract_if))$"):
+            if root not in [r for r, _ in takers]:
+                takers.append((root, F.bodies[root] if root in F.bodies else b))
+    ctx.floor("C14-d", len(takers), 2, "functions that take reply senders out of pending_client_writes")
+    ins = [1 for bid, b in F.bodies.items() if "LeaderState" in strip_generics(F.root_of[bid]) and field_calls(F, b, "LeaderState", "pending_client_writes", r"BTreeMap(::<.*>)?::insert$")
+           and F.fn_reaches(F.root_of[bid], lambda k: re.search(r"RaftLog::(insert_batch|append_entries)$|ReplicationCore::prepare_batch_requests$|LeaderState::execute_and_process_raft_rpc$", strip_generics(k)), D)]
+    ctx.floor("C14-d", len(ins), 1, "positive control: pending_client_writes.insert sits in a function that also appends the batch to the log")
+    n_err = 0
+    for (root, fnb) in takers:
+        for b in F.group_bodies(fnb):
+            for (bi, t) in calls_matching(b, SEND):
+                if reply_kind(F, b, t) == "Ok":
+                    continue
+                s = Slice(F, b).operand(t["args"][1])
+                codes, params = set(), False
+                for (xb, xt) in b.calls():
+                    if xt["dest"]["l"] in s.seen and re.search(r"ClientResponse::client_error$", strip_generics(callee_key(xt) or "")):
+                        c, p = _codes(F, b, xt["args"][0])
+                        codes |= c
+                        params = params or p
+                        if p:
+                            sl = Slice(F, b).operand(xt["args"][0])
+                            for src in caller_sources_of(F, b, sl):
+                                if src[0] == "agg" and strip_generics(src[1]).endswith("ErrorCode"):
+                                    codes.add(src[2])
+                if s.has_call(r"ClientResponse::not_leader$") or s.has_call(r"create_not_leader_response$"):
+                    codes.add("NotLeader")
+                n_err += 1
+                key = "%s#in-flight-writes-answered(%s)" % (fkey(root), "+".join(sorted(codes)) or "?")
+                hit = sorted(codes & vocab)
+                ctx.check("C14-d", "%s#in-flight-writes-not-rejected" % fkey(root), not hit and bool(codes),
+                          "writes already in the log are answered %s, outside the rejection vocabulary %s" % (sorted(codes), sorted(vocab)),
+                          ("a write that is already appended to the log (and may be committed by the next leader) is answered %s, the definitive 'rejected, retry elsewhere' code: the retry is applied twice" % hit) if hit
+                          else "the error code of this reply to an in-flight write cannot be determined", loc(b, bi))
+    ctx.floor("C14-d", n_err, 1, "error replies to in-flight writes")
+
+
+def _codes(F, body, operand):
+    """ErrorCode variants an operand may carry, and whether it (also) depends on a parameter"""
+    s = Slice(F, body).operand(operand)
+    cs = set(x[2] for x in s.sources if x[0] == "agg" and strip_generics(x[1]).endswith("ErrorCode"))
+    return cs, any(x[0] == "param" for x in s.sources)
+
+
+def caller_sources_of(F, body, sl):
+    from .c02 import caller_sources
+    return caller_sources(F, body, sl)
